@@ -22,7 +22,7 @@ EXPLANATION = (
     "consumers of functions that return hash-ordered sequences are frozen.  S4: no rayon, no pointer-to-integer cast, no pointer "
     "formatting, no environment/clock input in scope.  S5: Louvain's node ids come from the SORTED node names.  S3 (float sums whose "
     "operand order follows hash order) is listed as an assumption: order-independent up to rounding, exact for unweighted graphs.  "
-    "NOT decided: the non-randomised algorithms' run-to-run equality beyond this inventory."
+    "S8 (second sentence, one necessary condition): outside the seeded paths no unreviewed order-sensitive use -- positional adaptors included -- of a hash container created inside the call.  NOT decided: the non-randomised algorithms' run-to-run equality beyond this inventory."
 )
 TRUSTED = ["StdRng / ChaCha20Rng are deterministic functions of the seed for a fixed build", "slice::shuffle consumes the generator deterministically", "rustc MIR construction"]
 
@@ -193,6 +193,8 @@ def run(ctx):
         extra = sorted(cons - set(r.get("consumers", [])))
         ctx.require(not extra, "S2", "consumers|" + fn, "consumers of %s on the seeded paths are the reviewed ones (%d)" % (fn.split("::")[-1], len(cons)), "unreviewed consumer(s) of the hash-ordered sequence returned by %s on a seeded path: %s" % (fn, extra))
 
+    nonrandomised_order(ctx, prog, flows, effects, set(scope))
+
     # ------------------------------------------------------------------ S4
     ctx.rule("S4", "no thread/time/address/environment input on the seeded paths")
     bad = []
@@ -274,3 +276,90 @@ def rule_s6(ctx, prog, flows):
             ok = all(v.rstrip("{}() ").endswith("EdgeDedupeStrategy::KeepLast") for v in vals)
             ctx.require(ok, "S6", "specs|generate_graph", "the graph of communities is a KeepLast graph", "the graph of communities gets edge_dedupe_strategy from %s: when it is KeepFirst, the weight of a community edge is that of the member edge that get_all_edges() happens to yield first -- hash order, different from call to call although a seed is given" % sorted(vals), loc_str(a.span))
     ctx.floor("S6", "community_graph_specs", n, 1)
+
+
+def _fresh_container(fl, site):
+    """True when the iterated hash container is created inside the call (an owned local, not a parameter, not a field
+    of the graph, not a reference handed out by an accessor): such a container gets new random hash keys on every
+    call, so its iteration order differs from call to call on the same graph.  A container that belongs to the graph
+    keeps its order for the lifetime of that graph object."""
+    b = fl.b
+    t = site.create
+    if not t.args or t.args[0].place is None:
+        return None
+    pl = t.args[0].place
+    if any(isinstance(e, dict) and "f" in e for e in pl.proj):
+        return False
+    l = pl.local
+    for _ in range(10):
+        if l <= b.arg_count:
+            return False
+        ty = b.local_ty(l)
+        d = fl.single_def(l)
+        if d is None:
+            return not ty.startswith("&")
+        rv = getattr(d, "rv", None)
+        if rv is not None and rv.k in ("ref", "copyderef"):
+            if any(isinstance(e, dict) and "f" in e for e in rv.place.proj):
+                return False
+            l = rv.place.local
+            continue
+        if rv is not None and rv.k in ("use", "cast") and rv.ops and rv.ops[0].place is not None:
+            if rv.ops[0].place.proj:
+                return False
+            l = rv.ops[0].place.local
+            continue
+        if getattr(d, "k", None) == "call":
+            nm = d.callee.short.split("::")[-1] if d.callee else ""
+            if nm in ("deref", "as_ref", "borrow", "unwrap", "expect", "get", "index", "unwrap_or") and d.args and d.args[0].place is not None:
+                l = d.args[0].place.local
+                continue
+            return not b.local_ty(l).startswith("&")
+        return not ty.startswith("&")
+    return None
+
+
+def nonrandomised_order(ctx, prog, flows, effects, seeded_scope):
+    """S8 -- the second sentence of the property: "all non-randomised algorithms return the same answer for the same
+    graph on every call, up to floating-point rounding of sums".  The one thing that differs between two calls on the
+    same graph is the keying of the hash containers CREATED IN THE CALL.  Every order-sensitive use (a positional
+    adaptor such as combinations / enumerate / take, a first-match, a push into a sequence, a loop exit) of such a fresh
+    container in the query and algorithm modules must be a reviewed one."""
+    ctx.rule("S8", "outside the seeded paths, no order-sensitive use of a hash container created inside the call, unless reviewed (fresh containers are keyed anew on every call)")
+    review = {}
+    try:
+        with open(os.path.join(VERIF, "rules", "hashord_review.json")) as f:
+            review = {e["key"]: e for e in json.load(f).get("entries_nonrandomised", [])}
+    except OSError:
+        pass
+    bodies = []
+    for p, b in prog.bodies.items():
+        root = b
+        while root.kind == "closure":
+            root = prog.bodies[root.item["parent"]]
+        if root.short.startswith("algorithms::") or root.short.startswith("graph::"):
+            bodies.append(p)
+    sites = hashord.find_sites(prog, flows, effects, bodies=bodies)
+    n_fresh = 0
+    per_key = {}
+    for s in sites:
+        if not s.random or s.worst() != "ORDER":
+            continue
+        fr = _fresh_container(flows.of(s.body), s)
+        if not fr:
+            continue
+        n_fresh += 1
+        key = "%s|%s" % (s.body.short, s.container[0] + "<" + ",".join(s.container[1]) + ">")
+        per_key.setdefault(key, []).append(s)
+    for key, ss in sorted(per_key.items()):
+        r = review.get(key)
+        s = ss[0]
+        what = "; ".join(x[2] for s_ in ss for x in s_.consumers if x[1] == "ORDER")[:260]
+        if r is not None and r.get("verdict") == "safe" and len(ss) <= int(r.get("count", 1)):
+            ctx.ok("S8", key, "reviewed -- " + r["reason"], loc_str(s.create.span))
+        else:
+            ctx.violation("S8", key, "%s iterates a hash container created inside the call in an order-sensitive way (%s)%s: the container is keyed anew on every call, so two calls on the same graph can return different answers" % (s.body.short, what, "" if r is None else " -- %d such uses, %d reviewed" % (len(ss), int(r.get("count", 1)))), loc_str(s.create.span))
+    ctx.counters["fresh_order_sites_outside_seeded_paths"] = n_fresh
+    for k in review:
+        if k not in per_key:
+            ctx.note("S8: reviewed entry `%s` no longer matches a site" % k)
